@@ -17,7 +17,8 @@
  *   chunk MAXU SAMPLE     all strings of <= MAXU code units over the unit alphabet, all 8
  *                         alignments, all splits into <= 3 calls, 5 presentations; strings of
  *                         exactly 4 units are sampled 1/SAMPLE (SAMPLE=1: all)
- *   chunkrand N           N seeded random longer texts (<= 96 bytes), random alignment and cuts
+ *   chunkrand N           N seeded random longer texts (<= 96 bytes; every third one up to 400 bytes, built from long plain
+ *                         runs with arbitrary units right behind them), random alignment and cuts
  *
  * One JSON line on stdout.  Exit status 0 unless the harness itself is misused.
  *
@@ -659,10 +660,37 @@ static void mode_chunk(int part, int nparts, uint64_t seed, int maxu, int sample
 static void mode_chunkrand(uint64_t n)
 {
 	for (uint64_t t = 0; t < n; t++) {
-		uint8_t T[128];
+		uint8_t T[512];
 		int tn = (int)(rnd() % 97);
 		unsigned corrupt = (rnd() & 1) ? 0 : (unsigned)(2 + rnd() % 30);
 		gen_units(T, tn, corrupt);
+		if ((rnd() % 3) == 0) {
+			/* long texts made of long runs: plain ASCII (or two-byte characters) for about 8 / 16 / 32 / 64 / 128 bytes - whole
+			 * cache lines of it, at every offset - and directly behind each run a few arbitrary (often ill-formed) units:
+			 * whatever a fast path skips, the bytes right behind the skipped stretch are judged like all others */
+			static const int RUN[] = {7, 8, 9, 15, 16, 17, 31, 32, 33, 47, 55, 56, 57, 62, 63, 64, 65, 66, 71, 72, 73, 79, 80, 81, 127, 128, 129, 136};
+			tn = 0;
+			int nruns = 1 + (int)(rnd() % 3);
+			for (int r_ = 0; r_ < nruns && tn < 380; r_++) {
+				int len = RUN[rnd() % (sizeof(RUN) / sizeof(RUN[0]))];
+				int two = (rnd() % 4) == 0;
+				for (int i = 0; i < len && tn < 380; i++) {
+					if (two && i + 1 < len) {
+						T[tn++] = (uint8_t)(0xC2 + (rnd() % 30));
+						T[tn++] = (uint8_t)(0x80 + (rnd() & 0x3F));
+						i++;
+					} else {
+						T[tn++] = (uint8_t)(0x20 + (rnd() % 0x5F));
+					}
+				}
+				uint8_t piece[16];
+				int pn = 1 + (int)(rnd() % 9);
+				gen_units(piece, pn, (rnd() & 1) ? 0 : (unsigned)(2 + rnd() % 6));
+				memcpy(T + tn, piece, (size_t)pn);
+				tn += pn;
+			}
+			corrupt = 1;    /* (keeps the two-byte rewrite below away from these texts) */
+		}
 		if (corrupt == 0 && (rnd() & 3) == 0 && tn > 0) {
 			/* only 2-byte forms and ASCII pairs: the texts the word fast paths skip over */
 			for (int i = 0; i + 1 < tn; i += 2) {
@@ -683,7 +711,7 @@ static void mode_chunkrand(uint64_t n)
 				T[at + 1] = 0x80;
 			}
 		}
-		uint8_t rs[160], cl[160];
+		uint8_t rs[520], cl[520];
 		int r = R_START, cls = K_INTERRUPTED;
 		rs[0] = R_START;
 		cl[0] = K_INTERRUPTED;
